@@ -27,7 +27,8 @@ TASKS = LogT({'fn': 'V', 'args': 'seq'})                       # background task
 DISP = LogT({'event': 'V', 'ns': 'V', 'args': 'seq', 'ret': 'V', 'raised': 'V', 'err': 'V'})   # abstract effect: one dispatch of an event to the responsible target (defined by C13)
 
 ISSUED = MapT(Leaf('B'), total=True)                            # session ids ever returned by eio.generate_id()
-GHOST = {'calls': CALLS, 'out': OUT, 'raw': RAW, 'tasks': TASKS, 'disp': DISP, 'issued': ISSUED}
+EVENTS = MapT(Leaf('B'), total=True)                            # the flag of each threading.Event / asyncio.Event object
+GHOST = {'events': EVENTS, 'calls': CALLS, 'out': OUT, 'raw': RAW, 'tasks': TASKS, 'disp': DISP, 'issued': ISSUED}
 
 
 def server_world(name='server', server_cls=('server', 'Server'), manager_cls=('manager', 'Manager')):
@@ -71,10 +72,23 @@ def client_world(name='client', client_cls=('client', 'Client')):
     w.obj('client', client_cls, fields={
         'handlers': MapT(MapT(Leaf('V'))),
         'namespace_handlers': MapT(Leaf('V')),
+        'namespaces': MapT(Leaf('V')),                   # connected namespace -> session id
+        'connected': Leaf('B'),
+        'callbacks': MapT(MapT(Leaf('V'))),
+        'ack_next': MapT(Leaf('I'), total=True),          # ghost: next value of the counter kept in callbacks[ns]
+        '_binary_packet': OptT(PACKET),
+        'sid': Leaf('V'),
+        'connection_url': Leaf('V'), 'connection_headers': Leaf('V'), 'connection_auth': Leaf('V'),
+        'connection_transports': Leaf('V'), 'connection_namespaces': Leaf('V'), 'socketio_path': Leaf('V'),
+        '_connect_event': Leaf('V'), '_reconnect_task': Leaf('V'), '_reconnect_abort': Leaf('V'),
+        'reconnection': Leaf('V'), 'reconnection_attempts': Leaf('I'), 'reconnection_delay': Leaf('R'),
+        'reconnection_delay_max': Leaf('R'), 'randomization_factor': Leaf('R'),
     }, links={'eio': 'eio'}, consts={
         'logger': lambda eng, ctx: S(atom(Marker('logger'))),
+        'packet_class': lambda eng, ctx: ClassV('socketio.packet.Packet'),
+        'reason': reason_rec(CLIENT_REASONS),
     })
-    w.obj('eio', ('$ext', 'EioClient'))
+    w.obj('eio', ('$ext', 'EioClient'), fields={'state': Leaf('V'), 'sid': Leaf('V')})
     w.obj('g', ('$ext', 'Ghost'), fields=dict(GHOST))
     return w
 
